@@ -228,7 +228,7 @@ def main(pid, tier, replay_path=None):
                 cr = json.load(open(outp))
                 crcov = {'concurrent_release_rounds': cr['rounds'], 'concurrent_release_double_frees': cr['double_free'], 'concurrent_release_early_frees': cr.get('early_free', 0)}
                 # a block returned twice is C03's, a block returned while an unreleased reader still reads from it is C02's
-                if (pid == 'C03' and (cr['double_free'] or cr['other'])) or (pid == 'C02' and cr.get('early_free', 0)):
+                if (pid == 'C03' and (cr['double_free'] or cr['other'])) or (pid == 'C02' and cr.get('early_free', 0)) or cr.get('panics', 0):
                     violations.append(vlib.save_replay(pid, '%s_crel' % tier, {'property': pid, 'tier': tier, 'concurrent_release': True, 'result': cr}))
                     vlib.log('violation in the concurrent-release run after %d rounds: %s' % (cr['rounds'], cr['detail']))
             # ---- the node-level transcription LinkBuffer.tla: exhaustive to a bounded number of calls, its behaviours on the real code
